@@ -23,6 +23,7 @@ class Network(object):
         self.inflight = []     # dict(src=(ip,port), dst=(ip,port), data=bytes, t_ms=int)
         self.sent_log = []     # every datagram ever sent
         self.current_host = '10.0.0.1'
+        self.current_owner = None   # label of the agent whose code is running (several agents may share a host)
         self.next_port = 50000
         self.dropped = 0
 
@@ -45,6 +46,7 @@ class SimUdpSocket(object):
         self.type = type
         self.proto = proto
         self.host = NET.current_host
+        self.owner = NET.current_owner
         self.port = None
         self.rxq = []
         self.opts = []
@@ -79,7 +81,8 @@ class SimUdpSocket(object):
         if len(data) > UDP_MAX:
             raise OSError(90, 'Message too long')
         self._ensure_port()
-        dgram = dict(src=(self.host, self.port), dst=(address[0], address[1]), data=data, t_ms=simloop.CLOCK.now_ms)
+        dgram = dict(src=(self.host, self.port), dst=(address[0], address[1]), data=data, t_ms=simloop.CLOCK.now_ms,
+                     owner=self.owner)
         NET.inflight.append(dgram)
         NET.sent_log.append(dgram)
         return len(data)
